@@ -122,6 +122,13 @@ def be16 (n : Nat) : Bytes := [UInt8.ofNat (n / 256), UInt8.ofNat n]
 /-- PutUint32(uint32(n)) -/
 def be32 (n : Nat) : Bytes := [UInt8.ofNat (n / 16777216), UInt8.ofNat (n / 65536), UInt8.ofNat (n / 256), UInt8.ofNat n]
 
+/-- `len(bs) < n`. Go's `len` is O(1); this walks at most `n` cells instead of the whole list
+    (`lenLt bs n = decide (bs.length < n)`, Lemmas/Edf.lean). -/
+def lenLt : Bytes → Nat → Bool
+  | _, 0 => false
+  | [], _+1 => true
+  | _ :: r, n+1 => lenLt r n
+
 def rd16 : Bytes → Option (Nat × Bytes)
   | a :: b :: r => some (a.toNat * 256 + b.toNat, r)
   | _ => none
@@ -276,7 +283,7 @@ def readAtom (o : Opts) (bs : Bytes) : Res (Bytes × Bytes) :=
       match o.atomOf id with
       | some a => .ok (o.dmap a, r)
       | none => .err
-    else if r.length < id then .err
+    else if lenLt r id then .err
     else .ok (o.dmap (r.take id), r.drop id)
 
 /-- body of the leaf encoders, without the type tag. `none` = the encoder returns an error
@@ -404,7 +411,7 @@ def getReg (o : Opts) (bs : Bytes) : Res (Ty × Bytes) :=
       | some name => match o.reg name with
         | some t => .ok (t, r)
         | none => .err
-    else if r.length < n then .err
+    else if lenLt r n then .err
     else match o.reg (r.take n) with
       | some t => .ok (t, r.drop n)
       | none => .err
@@ -436,7 +443,7 @@ def decTy (o : Opts) : Nat → Bytes → Res (Ty × Bytes)
       | .err => .err
       | .panic => .panic
     else if b = edtArray then
-      if r.length < 5 then .err       -- len(fold) < 6
+      if lenLt r 5 then .err       -- len(fold) < 6
       else match rd32 r with
         | none => .err
         | some (n, r') =>
@@ -465,7 +472,7 @@ def getDecoder (o : Opts) (dt : Bool) : Bytes → Res (Option Ty × Bytes × Boo
       match rd16 r with
       | none => .err
       | some (n, r') =>
-        if r'.length < n then .err
+        if lenLt r' n then .err
         else match decTy o (n + 1) (r'.take n) with
           | .ok (t, _) => .ok (some t, r'.drop n, dt)
           | .err => .err
@@ -527,15 +534,15 @@ def iterF (f : Ty → Bytes → Res (Val × Bytes)) : Tys → Bytes → Res (Val
 def decLeaf (o : Opts) : Ty → Bytes → Res (Val × Bytes)
   | .bool, b :: r => .ok (.bool (b == 1), r)
   | .bool, [] => .err
-  | .num p, bs => if bs.length < p.width then .err else .ok (.num (numCanon p (bs.take p.width)), bs.drop p.width)
+  | .num p, bs => if lenLt bs p.width then .err else .ok (.num (numCanon p (bs.take p.width)), bs.drop p.width)
   | .str, bs =>
     match rd16 bs with
     | none => .err
-    | some (l, r) => if r.length < l then .err else .ok (.str (r.take l), r.drop l)
+    | some (l, r) => if lenLt r l then .err else .ok (.str (r.take l), r.drop l)
   | .bin, bs =>
     match rd32 bs with
     | none => .err
-    | some (l, r) => if r.length < l then .err else .ok (.bin (r.take l), r.drop l)
+    | some (l, r) => if lenLt r l then .err else .ok (.bin (r.take l), r.drop l)
   | .atom, bs =>
     match readAtom o bs with
     | .ok (a, r) => .ok (.atom a, r)
@@ -543,7 +550,7 @@ def decLeaf (o : Opts) : Ty → Bytes → Res (Val × Bytes)
     | .panic => .panic
   | .idr k, bs =>
     match readAtom o bs with
-    | .ok (a, r) => if r.length < k.rawLen then .err else .ok (.idr a (r.take k.rawLen), r.drop k.rawLen)
+    | .ok (a, r) => if lenLt r k.rawLen then .err else .ok (.idr a (r.take k.rawLen), r.drop k.rawLen)
     | .err => .err
     | .panic => .panic
   | .idn _, bs =>
@@ -556,7 +563,7 @@ def decLeaf (o : Opts) : Ty → Bytes → Res (Val × Bytes)
     | .err => .err
     | .panic => .panic
   | .time, l :: r =>
-    if r.length < l.toNat then .err
+    if lenLt r l.toNat then .err
     else if timeValid (r.take l.toNat) then .ok (.time (r.take l.toNat), r.drop l.toNat) else .err
   | .time, [] => .err
   | .error, bs =>
@@ -568,7 +575,7 @@ def decLeaf (o : Opts) : Ty → Bytes → Res (Val × Bytes)
         match o.errOf id with
         | some e => .ok (e, r)
         | none => .err
-      else if r.length < id then .err
+      else if lenLt r id then .err
       else .ok (.errText (r.take id), r.drop id)
   | _, _ => .err
 
@@ -608,7 +615,7 @@ def dec (o : Opts) : Nat → Bool → Ty → Bytes → Res (Val × Bytes)
           | none => .err
           | some (n, r') =>
             if n = 0 then .ok (.list .nil, r')
-            else if n > r'.length then .err
+            else if lenLt r' n then .err
             else match iterV (dec o fuel false t') n r' with
               | .ok (vs, r'') => .ok (.list vs, r'')
               | .err => .err
@@ -631,7 +638,7 @@ def dec (o : Opts) : Nat → Bool → Ty → Bytes → Res (Val × Bytes)
           | none => .err
           | some (n, r') =>
             if n = 0 then .ok (.map .nil, r')
-            else if n > r'.length then .err
+            else if lenLt r' n then .err
             else match iterP (dec o fuel false kt) (dec o fuel false vt) n .nil r' with
               | .ok (ps, r'') => .ok (.map ps, r'')
               | .err => .err
@@ -645,7 +652,7 @@ def dec (o : Opts) : Nat → Bool → Ty → Bytes → Res (Val × Bytes)
         else match rd32 r with
           | none => .err
           | some (n, r') =>
-            if n > r'.length then .err
+            if lenLt r' n then .err
             else match iterV (dec o fuel false t') n r' with
               | .ok (vs, r'') => .ok (.list vs, r'')
               | .err => .err
@@ -668,7 +675,7 @@ def dec (o : Opts) : Nat → Bool → Ty → Bytes → Res (Val × Bytes)
           | none => .err
           | some (n, r') =>
             if n = 0 then .ok (.map .nil, r')
-            else if n > r'.length then .err
+            else if lenLt r' n then .err
             else match iterP (dec o fuel false kt) (dec o fuel false vt) n .nil r' with
               | .ok (ps, r'') => .ok (.map ps, r'')
               | .err => .err
@@ -682,7 +689,7 @@ def dec (o : Opts) : Nat → Bool → Ty → Bytes → Res (Val × Bytes)
     | .marsh _ _ =>                             -- register.go:78, 136 (UnmarshalEDF/UnmarshalBinary assumed to succeed)
       match rd32 bs with
       | none => .err
-      | some (l, r) => if r.length < l then .err else .ok (.opaque (r.take l), r.drop l)
+      | some (l, r) => if lenLt r l then .err else .ok (.opaque (r.take l), r.drop l)
     | t =>
       match t.leafTag with
       | some tag =>
